@@ -13,8 +13,10 @@ From Verif Require Import Lib.Base Auth.Model.
 Record ktx := {
   kt_nonce : N;
   kt_fee : option (N * N);      (* amount, gas *)
-  kt_method : N;                (* 0 empty, 1 system, 2 unknown, 3 staking.Transfer, 4 staking.Burn *)
-  kt_to : N;                    (* address id of the recipient *)
+  kt_method : N;                (* 0 empty, 1 system, 2 unknown, 3 staking.Transfer, 4 staking.Burn,
+                                   5 staking.AddEscrow, 6 staking.Allow (add), 8 staking.Allow (subtract),
+                                   7 staking.Withdraw *)
+  kt_to : N;                    (* address id of the recipient / escrow account / beneficiary / withdrawal source *)
   kt_amount : N;
   kt_body_ok : bool             (* the method body decodes *)
 }.
@@ -39,10 +41,24 @@ Record kparams := {
   p_gas_transfer : N;
   p_gas_burn : N;
   p_min_gas_price : N;
+  p_gas_escrow : N;
+  p_gas_allow : N;
+  p_gas_withdraw : N;
+  p_min_deleg : N;              (* staking MinDelegationAmount *)
+  p_max_allow : N;              (* staking MaxAllowances *)
   p_reserved : list N           (* address ids that are reserved (staking/api/address.go:80) *)
 }.
 
 Definition bal (l : list (N * N)) (a : N) : N := match aget a l with Some b => b | None => 0 end.
+
+(* allowances live in the same association list under keys >= 2^40:
+   ALW + owner * 2^20 + beneficiary (address ids are small); value 0 = no entry *)
+Definition ALW : N := 1099511627776.
+Definition akey (owner ben : N) : N := ALW + owner * 1048576 + ben.
+Definition alw (l : list (N * N)) (owner ben : N) : N := bal l (akey owner ben).
+Definition count_alw (l : list (N * N)) (owner : N) : N :=
+  N.of_nat (length (filter (fun kv => (akey owner 0 <=? fst kv) && (fst kv <? akey (owner + 1) 0)
+                                      && negb (snd kv =? 0)) l)).
 
 (* blob = the transaction fields as a list of numbers; sig = validity flag *)
 Definition enc_tx (len : N) (t : ktx) : bytes :=
@@ -102,6 +118,37 @@ Definition k_exec (P : kparams) (l : list (N * N)) (pk : bytes) (t : tx) : list 
         if bal l from <? amt then (l, false) else                      (* :211 *)
         if bal l from - amt <? p_min_transact P then (l, false) else   (* :221 *)
         (aset from (bal l from - amt) l, true)
+      else if meth t =? 5 then
+        (* AddEscrow, transactions.go:253-360; the escrow pool of the target is not tracked *)
+        if gas_limit <? used + p_gas_escrow P then (l, false) else
+        if amt <? p_min_deleg P then (l, false) else
+        if negb (from =? to) && existsb (N.eqb to) (p_reserved P) then (l, false) else
+        if bal l from <? amt then (l, false) else
+        if bal l from - amt <? p_min_transact P then (l, false) else
+        (aset from (bal l from - amt) l, true)
+      else if (meth t =? 6) || (meth t =? 8) then
+        (* Allow, transactions.go:603-698 (the total-supply bound on the allowance is not modelled) *)
+        if gas_limit <? used + p_gas_allow P then (l, false) else
+        if p_max_allow P =? 0 then (l, false) else
+        if existsb (N.eqb to) (p_reserved P) then (l, false) else
+        if from =? to then (l, false) else
+        let nw := if meth t =? 6 then alw l from to + amt else alw l from to - amt in
+        let l' := aset (akey from to) nw l in
+        if p_max_allow P <? count_alw l' from then (l, false) else (l', true)
+      else if meth t =? 7 then
+        (* Withdraw, transactions.go:701-840: the signer takes [amt] out of account [to] *)
+        if gas_limit <? used + p_gas_withdraw P then (l, false) else
+        if amt <? p_min_transfer P then (l, false) else
+        if p_max_allow P =? 0 then (l, false) else
+        if existsb (N.eqb to) (p_reserved P) then (l, false) else
+        if from =? to then (l, false) else
+        if alw l to from =? 0 then (l, false) else
+        if alw l to from <? amt then (l, false) else
+        if bal l to <? amt then (l, false) else
+        if bal l to - amt <? p_min_transact P then (l, false) else
+        if bal l from + amt <? p_min_transact P then (l, false) else
+        (aset (akey to from) (alw l to from - amt)
+           (aset to (bal l to - amt) (aset from (bal l from + amt) l)), true)
       else (l, false)
   | _ => (l, false)
   end.
@@ -121,7 +168,7 @@ Definition kcfg (P : kparams) (SEPc : bytes) (txctx : ctx_spec) (chainc : bytes)
      addr_of := fun pk => hd 0 pk;
      reserved := fun a => existsb (N.eqb a) (p_reserved P);
      is_system := fun m => hd 0 m =? 1;
-     has_app := fun m => (hd 0 m =? 3) || (hd 0 m =? 4);
+     has_app := fun m => (3 <=? hd 0 m) && (hd 0 m <=? 8);
      is_critical := fun _ => false;
      max_tx_size := p_max_tx_size P;
      SEP := SEPc;
